@@ -252,6 +252,125 @@ Qed.
 Example strike_tilde : format_run (mkWOpts true false "-" "*" false 80) (mkWRun "a~" false false true false) = "~~a&#126;~~".
 Proof. reflexivity. Qed.
 
+(* ---------------- wrapped paragraphs: no line begins like a list item, a quote or a setext underline ---------------- *)
+
+(* the reader starts a list item, a block quote or a setext underline at a line that begins like this *)
+Definition block_start (cs : list ascii) : bool :=
+  match cs with
+  | [] => false
+  | c :: _ =>
+      existsb (Nat.eqb (code_of c)) [45; 43; 62; 61] ||
+      match take_while is_digit cs, drop_while is_digit cs with
+      | _ :: _, d :: _ => Nat.eqb (code_of d) 46 || Nat.eqb (code_of d) 41
+      | _, _ => false
+      end
+  end.
+
+Lemma take_while_all p (l : list ascii) : forallb p (take_while p l) = true.
+Proof. induction l as [|c l IH]; cbn; [reflexivity|]. destruct (p c) eqn:E; cbn; [rewrite E; exact IH | reflexivity]. Qed.
+
+Lemma take_while_app_stop' p (a : list ascii) x r : forallb p a = true -> p x = false -> take_while p (a ++ x :: r) = a.
+Proof.
+  induction a as [|c a IH]; intros Ha Hx; cbn; [rewrite Hx; reflexivity|].
+  cbn in Ha. apply andb_true_iff in Ha. destruct Ha as [Hc Ha]. rewrite Hc, IH by assumption. reflexivity.
+Qed.
+
+Lemma drop_while_app_stop p (a : list ascii) x r : forallb p a = true -> p x = false -> drop_while p (a ++ x :: r) = x :: r.
+Proof.
+  induction a as [|c a IH]; intros Ha Hx; cbn; [rewrite Hx; reflexivity|].
+  cbn in Ha. apply andb_true_iff in Ha. destruct Ha as [Hc Ha]. rewrite Hc. apply IH; assumption.
+Qed.
+
+Lemma bslash_not_digit : is_digit bslash = false.
+Proof. reflexivity. Qed.
+
+(* escapeBlockStart does what it is there for, on every text *)
+Theorem escape_block_start_safe : forall cs, block_start (escape_block_start cs) = false.
+Proof.
+  intros [|c r]; [reflexivity|]. unfold escape_block_start.
+  destruct (existsb (Nat.eqb (code_of c)) [45; 43; 62; 61]) eqn:Em.
+  - (* a backslash in front: neither a marker nor a digit *)
+    reflexivity.
+  - destruct (take_while is_digit (c :: r)) as [|d0 ds] eqn:Et.
+    + (* no digits in front *)
+      unfold block_start. rewrite Em, Et. reflexivity.
+    + destruct (drop_while is_digit (c :: r)) as [|d rest'] eqn:Ed.
+      * unfold block_start. rewrite Em, Et, Ed. reflexivity.
+      * destruct (Nat.eqb (code_of d) 46 || Nat.eqb (code_of d) 41) eqn:Edot.
+        -- (* digits, a backslash, the delimiter *)
+           assert (forallb is_digit (d0 :: ds) = true) as Hall by (rewrite <- Et; apply take_while_all).
+           unfold block_start. cbn [app].
+           assert (existsb (Nat.eqb (code_of d0)) [45; 43; 62; 61] = false) as Hd0.
+           { cbn [take_while] in Et. destruct (is_digit c); [|discriminate]. injection Et as -> _. exact Em. }
+           rewrite Hd0. cbn [orb].
+           change (d0 :: ds ++ bslash :: d :: rest') with ((d0 :: ds) ++ bslash :: d :: rest').
+           rewrite take_while_app_stop' by (exact Hall || exact bslash_not_digit).
+           rewrite drop_while_app_stop by (exact Hall || exact bslash_not_digit). reflexivity.
+        -- unfold block_start. rewrite Em, Et, Ed, Edot. reflexivity.
+Qed.
+
+(* the lines a wrapped paragraph is made of, before they are escaped *)
+Fixpoint wrap_groups (words : list (list ascii)) (line : list ascii) (max : nat) : list (list ascii) :=
+  match words with
+  | [] => match line with [] => [] | _ => [line] end
+  | w :: r =>
+      match line with
+      | [] => wrap_groups r w max
+      | _ => if Nat.ltb max (List.length line + List.length w + 1) then line :: wrap_groups r w max
+             else wrap_groups r (line ++ ascii_of_nat 32 :: w) max
+      end
+  end.
+
+Fixpoint join_lines (ls : list (list ascii)) : list ascii :=
+  match ls with
+  | [] => []
+  | [l] => l
+  | l :: rest => l ++ nl :: join_lines rest
+  end.
+
+Lemma wrap_groups_nonempty : forall words line max, line <> [] -> wrap_groups words line max <> [].
+Proof.
+  induction words as [|w r IH]; intros line max Hl; cbn [wrap_groups].
+  - destruct line; [contradiction | discriminate].
+  - destruct line as [|c l]; [contradiction|].
+    destruct (Nat.ltb _ _); [discriminate|]. apply IH. destruct l; discriminate.
+Qed.
+
+(* wrapText = the lines, each passed through escapeBlockStart, joined by line breaks *)
+Theorem wrap_lines_groups : forall words line max,
+  Forall (fun w => w <> []) words ->
+  wrap_lines words line max = join_lines (map escape_block_start (wrap_groups words line max)).
+Proof.
+  induction words as [|w r IH]; intros line max Hw.
+  - cbn [wrap_lines wrap_groups]. destruct line; reflexivity.
+  - inversion Hw as [|x l Hx Hr]; subst. cbn [wrap_lines wrap_groups].
+    destruct line as [|c l]; [apply IH; exact Hr|].
+    destruct (Nat.ltb _ _).
+    + cbn [map]. rewrite IH by exact Hr.
+      pose proof (wrap_groups_nonempty r w max Hx) as Hne.
+      destruct (wrap_groups r w max) as [|g gs]; [contradiction|]. reflexivity.
+    + apply IH. exact Hr.
+Qed.
+
+(* so no line of a wrapped paragraph begins like a list item, a quote or a setext underline *)
+Corollary wrapped_lines_safe : forall words line max,
+  Forall (fun l => block_start l = false) (map escape_block_start (wrap_groups words line max)).
+Proof.
+  intros. apply Forall_forall. intros l Hin. apply in_map_iff in Hin. destruct Hin as [g [<- _]]. apply escape_block_start_safe.
+Qed.
+
+(* the words wrapWords hands over are never empty *)
+Lemma wrap_words_nonempty : forall cs cur fence run esc, Forall (fun w => w <> []) (wrap_words cs cur fence run esc).
+Proof.
+  induction cs as [|c r IH]; intros cur fence run esc; cbn [wrap_words].
+  - destruct cur as [|x cur]; constructor; [|constructor].
+    intro H. apply (f_equal (@List.length ascii)) in H. rewrite rev_length in H. discriminate.
+  - destruct (Ascii.eqb c btick && negb (esc && Nat.eqb fence 0)); [apply IH|].
+    match goal with |- context [if ?b then _ else _] => destruct b end; [|apply IH].
+    destruct cur as [|x cur]; [apply IH|]. constructor; [|apply IH].
+    intro H. apply (f_equal (@List.length ascii)) in H. rewrite rev_length in H. discriminate.
+Qed.
+
 (* the worked example of the property: every kind of block, metacharacters, blanks at run ends, a code span with a
    backtick, a list followed by a paragraph *)
 Definition ex_opts := mkWOpts true false "-" "*" false 80.
